@@ -242,6 +242,61 @@ ParaPos(r, nf, lo, hi) ==
   LET vals == ParaVals(r.d, t, 0, <<>>, lo, hi) IN
   [pt \in 1..r.np |-> LET e == EntryOf(t.order, pt - 1) IN IF e < 0 THEN <<>> ELSE vals[e + 1]]
 
+\* ---------------------------------------------------------------- constrained multi-parallelogram prediction (method 4, the default at speeds 0 and 1)
+\* Around the vertex of entry p: starting at its corner, swing left collecting every parallelogram whose three entries precede p (at most 4); on reaching
+\* the boundary continue from the start corner swinging right.  With n parallelograms found, n crease flags are taken from flag list n - 1 (one list
+\* per count, each with its own cursor; a list that runs out refuses the stream); the prediction is the sum of the parallelograms whose flag is 0
+\* divided by their number (C++ integer division, towards zero), or the previous entry when none is used.  pat names the served flags:
+\* 0 all clear, 1 all set, 2 alternating.
+TruncDiv(a, b) == IF a >= 0 THEN a \div b ELSE -((-a) \div b)
+FlagAt(pat, ctx, pos) == CASE pat = 0 -> 0 [] pat = 1 -> 1 [] OTHER -> (pos + ctx) % 2
+EntryD(t, v) == LET e == EntryOf(t.order, v) IN IF e < 0 THEN 0 ELSE e
+ParaAt(d, t, p, vals, ci) ==
+  LET oci == Opp(d, ci) IN
+  IF oci = INV THEN [ok |-> FALSE, pred |-> <<>>] ELSE
+  LET eo == EntryD(t, Vtx(d, oci))  en == EntryD(t, Vtx(d, Nx(oci)))  ep == EntryD(t, Vtx(d, Pv(oci))) IN
+  IF eo < p /\ en < p /\ ep < p THEN [ok |-> TRUE, pred |-> [c \in 1..3 |-> vals[en + 1][c] + vals[ep + 1][c] - vals[eo + 1][c]]]
+  ELSE [ok |-> FALSE, pred |-> <<>>]
+RECURSIVE Gather(_, _, _, _, _, _, _, _, _)
+Gather(d, t, p, vals, start, c, first, preds, fuel) ==
+  IF c = INV THEN [preds |-> preds, err |-> ""] ELSE
+  IF fuel = 0 THEN [preds |-> preds, err |-> "ub:parallelogram-walk-does-not-end"] ELSE
+  LET pr == ParaAt(d, t, p, vals, c)
+      preds1 == IF pr.ok THEN Append(preds, pr.pred) ELSE preds IN
+  IF Len(preds1) = 4 THEN [preds |-> preds1, err |-> ""] ELSE
+  LET c1 == IF first THEN SwingL(d, c) ELSE SwingR(d, c) IN
+  IF c1 = start THEN [preds |-> preds1, err |-> ""]
+  ELSE IF c1 = INV /\ first THEN Gather(d, t, p, vals, start, SwingR(d, start), FALSE, preds1, fuel - 1)
+  ELSE Gather(d, t, p, vals, start, c1, first, preds1, fuel - 1)
+RECURSIVE UseFlags(_, _, _, _, _, _, _)
+\* i-th parallelogram of n: returns [sum, used, cur]
+UseFlags(pat, preds, i, n, sum, used, cur) ==
+  IF i > n THEN [sum |-> sum, used |-> used, cur |-> cur] ELSE
+  LET pos == cur[n]  crease == FlagAt(pat, n - 1, pos) = 1  cur1 == [cur EXCEPT ![n] = @ + 1] IN
+  IF crease THEN UseFlags(pat, preds, i + 1, n, sum, used, cur1)
+  ELSE UseFlags(pat, preds, i + 1, n, [c \in 1..3 |-> sum[c] + preds[i][c]], used + 1, cur1)
+RECURSIVE CmVals(_, _, _, _, _, _, _, _)
+CmVals(d, t, p, vals, cur, pat, lo, hi) ==
+  IF p = Len(t.order) THEN [vals |-> vals, cur |-> cur, err |-> ""] ELSE
+  LET corr == <<3 * p + 1, 3 * p + 2, 3 * p + 3>> IN
+  IF p = 0 THEN CmVals(d, t, 1, <<[c \in 1..3 |-> IA!Unwrap(0, corr[c], lo, hi)]>>, cur, pat, lo, hi) ELSE
+  LET g == Gather(d, t, p, vals, t.cor[p + 1], t.cor[p + 1], TRUE, <<>>, 6 * Len(t.order) + 12) IN
+  IF g.err # "" THEN [vals |-> vals, cur |-> cur, err |-> g.err] ELSE
+  LET n == Len(g.preds)
+      u == IF n = 0 THEN [sum |-> <<0, 0, 0>>, used |-> 0, cur |-> cur] ELSE UseFlags(pat, g.preds, 1, n, <<0, 0, 0>>, 0, cur)
+      pred == IF u.used = 0 THEN vals[p] ELSE [c \in 1..3 |-> TruncDiv(u.sum[c], u.used)]
+      v == [c \in 1..3 |-> IA!Unwrap(pred[c], corr[c], lo, hi)]
+  IN CmVals(d, t, p + 1, Append(vals, v), u.cur, pat, lo, hi)
+\* [nfl |-> flags consumed per list, pos |-> position per point (or <<>>), err]
+CmPos(r, nf, pat, lo, hi) ==
+  IF r.out # "acc" THEN [nfl |-> <<0, 0, 0, 0>>, pos |-> <<>>, err |-> "none"] ELSE
+  LET t == Traverse(r.d, nf) IN
+  IF t.err # "" THEN [nfl |-> <<0, 0, 0, 0>>, pos |-> <<>>, err |-> "none"] ELSE
+  LET m == CmVals(r.d, t, 0, <<>>, <<0, 0, 0, 0>>, pat, lo, hi) IN
+  IF m.err # "" THEN [nfl |-> m.cur, pos |-> <<>>, err |-> m.err]
+  ELSE [nfl |-> m.cur, err |-> "",
+        pos |-> [pt \in 1..r.np |-> LET e == EntryOf(t.order, pt - 1) IN IF e < 0 THEN <<>> ELSE m.vals[e + 1]]]
+
 \* ---------------------------------------------------------------- the whole connectivity decode
 \* syms in DECODER order; ev = <<src, split, edge>> triples ascending in src; sb = start-face bits
 Decode(syms, nv, nf, nss, ev, sb) ==
